@@ -232,9 +232,12 @@ func runC09(idx int, cc *c09Case, keepRecords bool) c09Result { //nolint:cyclop,
 		}
 	}
 	total := 0
+	var resMu sync.Mutex
 	write := func(p *labPeer, tag string) {
 		_, err := p.conn.Write([]byte(tag))
 		if err != nil {
+			resMu.Lock()
+			defer resMu.Unlock()
 			if errors.Is(err, dtlserrors.ErrSequenceNumberOverflow) {
 				res.Refused++
 			} else if len(res.Info) < 4 {
